@@ -228,6 +228,8 @@ def lift(x):
         return SBool(z3.BoolVal(bool(x)))
     if isinstance(x, int):
         return SInt(z3.IntVal(x))
+    if hasattr(x, '_snapshot') and getattr(x, 'ndim', 1) == 0:
+        return lift(x.at())            # 0-d symbolic array
     if hasattr(x, 'dtype') and getattr(x, 'ndim', 1) == 0:
         if x.dtype.kind in 'iu':
             return SInt(z3.IntVal(int(x)))
@@ -1537,6 +1539,7 @@ def check(name, cond, safety=False):
                     backend = 'pit-identity'
         except (pit.NotPoly, RecursionError):
             pass
+    tried_pit = False
     if r is None:
         r = s.check()
     if r == z3.unknown and _pure_int(cz):
@@ -1555,7 +1558,7 @@ def check(name, cond, safety=False):
     if r == z3.unknown:
         # polynomial-identity back end, then z3 again on the Ackermannised formula with the full budget
         from . import pit
-        ok, pinfo = pit.prove(list(ctx.pc), cz, entails)
+        ok, pinfo = (False, pit_note) if tried_pit else pit.prove(list(ctx.pc), cz, entails_cheap)
         if ok:
             r = z3.unsat
             backend = 'pit'
@@ -1636,11 +1639,21 @@ def _flat_and(e):
 
 
 def entails_cheap(f):
-    k = ('ent', f.get_id())
+    """entailment by the light (linear) part of the path condition first (milliseconds: guards such as n == 1 or
+    n >= 2), then by the full path condition; cached per path and per pc length."""
+    k = ('ent', f.get_id(), len(ctx.pc))
     hit = ctx._vc_seen.get(k)
     if hit is not None:
         return hit[1]
-    r = entails(f)
+    r = False
+    try:
+        ctx.solver.set('timeout', 300)
+        if ctx.solver.check(z3.Not(f)) == z3.unsat:
+            r = True
+    finally:
+        ctx.solver.set('timeout', 3000)
+    if not r and _looks_nonlinear(f, 200):
+        r = entails(f)      # linear guards are decided by the light solver alone
     ctx._vc_seen[k] = (f, r)
     return r
 
